@@ -187,7 +187,13 @@ def _classify(diags, asm):
             fnlabel = asm.fns[key]['fn'].label
             oid = f'{fnlabel}/arith' + (f'@{site["repo_file"]}:{site["repo_line"]}' if site else '')
         elif 'invariant' in msg:
-            oid = f'{fnlabel}/loopinv'
+            lab = None
+            for s, info in infos:
+                if info and info['kind'] == 'loopinv':
+                    lab = info['label']
+                    key = info['key']
+            fnlabel = asm.fns[key]['fn'].label
+            oid = f'{fnlabel}/loopinv:{lab}' if lab else f'{fnlabel}/loopinv'
         elif 'decreases' in msg or 'termination' in msg:
             oid = f'{fnlabel}/termination'
         elif msg.startswith('assertion failed'):
@@ -292,7 +298,7 @@ def verify_unit(unit, scratch, tier='quick', seed=0, repo=None, vacuity=True):
                 o['sites'] = sorted(set(f['id'] for f in hit))
                 o['detail'] = '\n'.join(f['detail'] for f in hit)
         elif o['kind'] == 'loopinv':
-            hit = [f for f in fl if '/loopinv' in f['id']]
+            hit = [f for f in fl if f['id'] == o['id'] or f['id'].endswith('/loopinv')]
             if hit:
                 o['status'] = 'failed'
                 o['detail'] = hit[0]['detail']
